@@ -435,6 +435,24 @@ func c12Oracle(w *c12World, x *vsched.Execution, o *c12Outcome) {
 		}
 	}
 	if live != nil {
+		for _, op := range sc.Suffix {
+			var res string
+			if !withTimeout(20*time.Second, func() { res = w.Op(-1, op) }) {
+				add("suffix-op-hangs", op, "sequential "+op+" after the concurrent phase did not return in 20s")
+				return
+			}
+			if strings.HasPrefix(res, "err:") {
+				add("suffix-op-failed", op+":"+res, "sequential "+op+" after the concurrent phase: "+res)
+				return
+			}
+		}
+		if len(sc.Suffix) > 0 {
+			s.RecordLedgerNow()
+		}
+	}
+	// (the suffix comes BEFORE the closing SyncAndWait below: a sync with nothing to copy would repair a stale cached
+	// position before the suffix's own commit could be lost to it)
+	if live != nil {
 		// A sync that fails is not an acknowledgement; the daemon retries on its next tick. The
 		// oracle retries like it (3 attempts) and reports only a failure that persists.
 		var err error
@@ -456,22 +474,6 @@ func c12Oracle(w *c12World, x *vsched.Execution, o *c12Outcome) {
 		}
 		if attempts > 1 {
 			o.Instances = append(o.Instances, fmt.Sprintf("final-sync-attempts=%d", attempts))
-		}
-	}
-	if live != nil {
-		for _, op := range sc.Suffix {
-			var res string
-			if !withTimeout(20*time.Second, func() { res = w.Op(-1, op) }) {
-				add("suffix-op-hangs", op, "sequential "+op+" after the concurrent phase did not return in 20s")
-				return
-			}
-			if strings.HasPrefix(res, "err:") {
-				add("suffix-op-failed", op+":"+res, "sequential "+op+" after the concurrent phase: "+res)
-				return
-			}
-		}
-		if len(sc.Suffix) > 0 {
-			s.RecordLedgerNow()
 		}
 	}
 	// The C01/C02/snapshot verdicts are functions of the decoded replica files, the ledger and
